@@ -43,6 +43,7 @@ func register(r *Rule) { rules[r.ID] = r }
 // Ctx is handed to a rule.
 type Ctx struct {
 	P    *Prog
+	Args []string // optional selector given as Rnn[a,b] in a property's rule list
 	rule *Rule
 	obs  *[]Obligation
 	keys map[string]int
@@ -162,13 +163,18 @@ type RunResult struct {
 func runRules(p *Prog, ids []string) *RunResult {
 	res := &RunResult{RuleCounts: map[string]int{}}
 	for _, id := range ids {
+		var args []string
+		if i := strings.IndexByte(id, '['); i > 0 && strings.HasSuffix(id, "]") {
+			args = strings.Split(id[i+1:len(id)-1], ",")
+			id = id[:i]
+		}
 		r := rules[id]
 		if r == nil {
 			res.Obs = append(res.Obs, Obligation{Rule: id, Key: id + ":unimplemented", What: "rule not implemented", OK: false, Vanished: true})
 			continue
 		}
 		var obs []Obligation
-		c := &Ctx{P: p, rule: r, obs: &obs, keys: map[string]int{}}
+		c := &Ctx{P: p, Args: args, rule: r, obs: &obs, keys: map[string]int{}}
 		func() {
 			defer func() {
 				if e := recover(); e != nil {
@@ -184,7 +190,7 @@ func runRules(p *Prog, ids []string) *RunResult {
 			}
 		}
 		res.RuleCounts[id] = n
-		if n < r.Min {
+		if n < r.Min && len(args) == 0 {
 			obs = append(obs, Obligation{Rule: id, Key: id + ":instances", Pos: "-", Func: "-",
 				What:    fmt.Sprintf("rule %s (%s) must have at least %d instances (confirmed on the reference tree)", id, r.Title, r.Min),
 				OK:      false,
@@ -273,6 +279,9 @@ func sampleObs(obs []Obligation, perRule int) []Obligation {
 func ruleTable(ids []string, res *RunResult) []map[string]any {
 	var out []map[string]any
 	for _, id := range ids {
+		if i := strings.IndexByte(id, '['); i > 0 {
+			id = id[:i]
+		}
 		r := rules[id]
 		if r == nil {
 			continue
